@@ -659,8 +659,9 @@ def run(chk):
         'a restarted _listen() continues with the messages that follow (assumption about the broker)',
         'logger methods do not raise; faults are Exception subclasses (BaseException / CancelledError end the loop by design)',
         'host ids of distinct servers are distinct (uuid4)',
-        'C15_inert excludes class BCallbackCounter (callback message whose id hits slot 0 of callbacks[sid]): '
-        'C15_inert_counter_refuted']
+        'class BCallbackCounter (callback message whose id hits slot 0 of callbacks[sid], the id generator) is '
+        'ineffective since /repo commit 2f7b83f; should the defect return, the check reports signature '
+        'c15-callback-id0-pops-counter (a callbacks[sid] without key 0 in the observed final state)']
     chk.prove()
 
     loop = asyncio.new_event_loop()
@@ -669,7 +670,8 @@ def run(chk):
     cases, meta = [], []
     try:
         gen = Gen(rng, chk.thorough)
-        # the smallest history of the counter-slot class first (its replay is the minimal reproduction)
+        # the smallest history of the counter-slot class first (regression probe for signature
+        # c15-callback-id0-pops-counter; its replay is the minimal reproduction)
         for is_async in (False, True):
             plan, items = minimal_id0_probe()
             term, _ = lst_case(is_async, plan, items, loop)
